@@ -40,6 +40,17 @@ CHECKS = {
         note="Trusted: TLC, the rendering of graphs to `use` statements, the recording in-memory Loader. Which error is reported when several are present is not compared.",
         technique="TLA+ state machine of module::load (TLC, all import graphs up to 4 modules) + spec->impl replay of every graph + impl->spec trace validation of recorded loader calls",
     ),
+    "C14": dict(
+        design_ref="DESIGN.md 3.7, 4 (C14)",
+        text="TLC model-checks Merge.tla (Builder::into_openapi as a four-step state machine) over every abstract base description "
+             "(every top-level field and component kind absent/present, components object absent/present, base with its own paths and "
+             "schemas) combined with programs with and without paths and schemas: Frame, FromProgram, FrameAlways, Terminates. The "
+             "abstract pairs are realised as concrete YAML bases and Oxlip programs, merged by the real Builder and by the real "
+             "oal-cli --base, abstracted back field by field and compared with the specification's output record; Frame/FromProgram are "
+             "also evaluated directly on the concrete documents. Bounded, not a proof.",
+        note="Trusted: TLC, the realisation of abstract field values, the field-wise abstraction of documents. Absent and empty are identified; bases are in the OpenAPI object model's normal form.",
+        technique="TLA+ model of the base merge (TLC, all abstract bases x programs) + spec->impl replay through Builder and oal-cli with field-wise abstraction",
+    ),
 }
 
 PENDING_REASON = "check not built yet (work in progress; see DESIGN.md section 8 for the build order)"
